@@ -232,6 +232,100 @@ fn action_oracle(c: &ActionCase, rec: &Rec, _: &Ctx) -> Result<(), String> {
     Ok(())
 }
 
+// ------------------------------------------------------------------------------------------------
+// histories: reads of the built-in tables interleaved, on one thread, with user-built groups (all fields of WallpaperGroup
+// are public) that reuse a built-in name with a listing derived from a table; every read must give its own listing
+
+#[derive(Clone, Debug, Serialize, Deserialize)]
+pub enum HistOp {
+    Builtin(usize),
+    /// (name of built-in group `name` or "custom" when None, listing of built-in `base` changed by `change` with index i, j)
+    Custom { name: Option<usize>, base: usize, change: u8, i: u16, j: u16 },
+}
+
+#[derive(Clone, Debug, Serialize, Deserialize)]
+pub struct HistCase {
+    pub ops: Vec<HistOp>,
+}
+
+fn hist_strat(_: &Ctx) -> BoxedStrategy<HistCase> {
+    let op = prop_oneof![
+        2 => (0usize..7).prop_map(HistOp::Builtin),
+        3 => (prop_oneof![4 => (0usize..7).prop_map(Some), 1 => Just(None)], 0usize..7, 0u8..6, any::<u16>(), any::<u16>()).prop_map(|(name, base, change, i, j)| HistOp::Custom { name, base, change, i, j }),
+    ];
+    proptest::collection::vec(op, 2..8).prop_map(|ops| HistCase { ops }).boxed()
+}
+
+fn hist_oracle(c: &HistCase, rec: &Rec, _: &Ctx) -> Result<(), String> {
+    let mut polluted_reads = 0usize;
+    let mut customs_with_builtin_name = vec![false; 7];
+    for (step, op) in c.ops.iter().enumerate() {
+        match op {
+            HistOp::Builtin(g) => {
+                let mut evals = 0u64;
+                check_group(*g, &mut evals).map_err(|e| format!("step {} (built-in {} read after {} earlier steps of {:?}): {}", step, geom::GROUP_NAMES[*g], step, c.ops, e))?;
+                rec.eval(evals);
+                if customs_with_builtin_name[*g] {
+                    polluted_reads += 1;
+                }
+            }
+            HistOp::Custom { name, base, change, i, j } => {
+                let which = WallpaperGroups::from_str(geom::GROUP_NAMES[*base]).map_err(|e| e.to_string())?;
+                let table = get_wallpaper_group(which).map_err(|e| e.to_string())?;
+                let mut listing: Vec<String> = table.wyckoff_str.iter().map(|s| s.to_string()).collect();
+                let n = listing.len();
+                match change {
+                    0 => listing.truncate(1 + crate::engine::idx(*i, n)),
+                    1 => {
+                        if n > 1 {
+                            listing.remove(crate::engine::idx(*i, n));
+                        }
+                    }
+                    2 => listing.swap(crate::engine::idx(*i, n), crate::engine::idx(*j, n)),
+                    3 => {
+                        let other = get_wallpaper_group(WallpaperGroups::from_str(geom::GROUP_NAMES[crate::engine::idx(*i, 7)]).map_err(|e| e.to_string())?).map_err(|e| e.to_string())?;
+                        listing.push(other.wyckoff_str[crate::engine::idx(*j, other.wyckoff_str.len())].to_string());
+                    }
+                    4 => {
+                        let k = crate::engine::idx(*i, n);
+                        listing[k] = ["y,x", "-y,-x", "x+1/2,y+1/2", "-x+1/2,-y", "x,y+1/2", "y,-x"][crate::engine::idx(*j, 6)].to_string();
+                    }
+                    _ => {}
+                }
+                let name_str: String = match name {
+                    Some(g) => {
+                        customs_with_builtin_name[*g] = true;
+                        geom::GROUP_NAMES[*g].to_string()
+                    }
+                    None => "custom".to_string(),
+                };
+                let wg = packing::wallpaper::WallpaperGroup { name: &name_str, family: table.family, wyckoff_str: listing.iter().map(|s| s.as_str()).collect() };
+                let site = WyckoffSite::new(&wg).map_err(|e| format!("step {}: listing {:?} does not parse: {}", step, listing, e))?;
+                rec.eval(1);
+                if site.symmetries.len() != listing.len() {
+                    return Err(format!("step {}: a group named {:?} with the {} operations {:?} yields a site of {} operations (history {:?})", step, name_str, listing.len(), listing, site.symmetries.len(), c.ops));
+                }
+                for (k, (t, text)) in site.symmetries.iter().zip(listing.iter()).enumerate() {
+                    let alone = packing::Transform2::from_operations(text).map_err(|e| e.to_string())?;
+                    let (m1, m2): (Matrix3<f64>, Matrix3<f64>) = ((*t).into(), alone.into());
+                    if m1 != m2 {
+                        return Err(format!("step {}: operation {} of the group named {:?} with listing {:?} is {:?}, but {:?} alone parses to {:?} (history {:?})", step, k, name_str, listing, m1, text, m2, c.ops));
+                    }
+                }
+            }
+        }
+    }
+    let class = format!("history/{}", if polluted_reads > 0 { "built-in-read-after-same-name-custom" } else { "other" });
+    rec.class(&class);
+    if polluted_reads > 0 {
+        rec.nontrivial(crate::engine::hash_json(&serde_json::to_value(c).unwrap()));
+    }
+    if rec.wants_sample(&class) {
+        rec.sample(&class, || serde_json::to_value(c).unwrap());
+    }
+    Ok(())
+}
+
 pub fn parts() -> Vec<PartDef> {
     vec![
         custom_part(
@@ -266,5 +360,6 @@ pub fn parts() -> Vec<PartDef> {
             },
         ),
         part("action", 1_000_000, 20_000_000, action_strat, action_oracle),
+        part("histories", 200_000, 4_000_000, hist_strat, hist_oracle),
     ]
 }
